@@ -298,10 +298,20 @@ PROPS['C12'] = dict(
     assumptions=[],
 )
 
+def _race_stats(c, o):
+    t = c.split()
+    return ['workload=%s' % (t[1] if len(t) > 1 else '?')]
 PROPS['C11'] = dict(
     id='C11', domains=['race'], no_model={'race': True}, race_domains=('race',), per_case_domains=('race',),
     n=dict(quick=dict(race=42), thorough=dict(race=700)),
-    theorems=[('Properties.C11', [])],
+    theorems=[('Properties.C11', ['C11_guarded_accesses_are_ordered_by_happens_before', 'C11_disciplined_traces_have_no_data_race',
+                                  'C11_unsynchronised_writes_are_a_race', 'C11_mutex_trace_meets_the_hypotheses']),
+              ('Properties.AccessTable', ['C11_access_table_follows_the_disciplines'])],
     kinds={'panic', 'data-race', 'crash'},
-    rule='TODO', level_text='TODO', level_note='TODO',
+    stats=_race_stats,
+    rule='race: workloads of the supported concurrent uses (distinct builders, unmarshalers, file readers and records in parallel goroutines; one shared file writer with its shared name generator, 1-3 workers, default and customised options; several writers at once) run in a binary built with -race, one fresh process per case so that process-wide state is cold every time; a race report (the detector halts the process) is a violation with the two access stacks as detail. No model prediction is compared here; the tie is the access table regenerated from the source (theorem C11_access_table_follows_the_disciplines).',
+    level_text='PARTIAL. Proved in Coq for every trace: locations that are read-only in the trace or guarded by an exclusive sync object have all conflicting accesses ordered by happens-before, so a trace following the disciplines has no data race (Go memory model happens-before: program order + release/acquire on the same sync object). Proved (by computation, on tables regenerated from the current source on every run): every package-level variable of the library is immutable after init or a sync object; every function touching a guarded field of singleWarcFileWriter is only reachable with writeLock held; fields of the shared WarcFileWriter / PatternNameGenerator are not written outside constructors (Serial is atomic); process-wide mutators of dependencies are called from init only. NOT proved: that the tables describe every access of every execution (syntactic type resolution, no alias analysis, dependencies not analysed) - this bridge is observed under the Go race detector.',
+    level_note='Trusted: Coq kernel, the translator go/gen (racetable), the Go race detector as the observer. Modelled, not verified: the Go memory model as happens-before over release/acquire pairs; mutex exclusivity; the handoff of job structs over unbuffered channels is covered by the protocol model (a job is held by one thread, C09).',
+    assumptions=['Go memory model; the race detector reports races that occur in the executed schedule only',
+                 'the access table is complete for the shared state of the library (no aliasing of guarded objects under other static types, no reflection/unsafe)'],
 )
